@@ -32,9 +32,12 @@ PC = "BlockQueue.tla"
 SIM = "BlockQueueSim.tla"
 
 # exhaustive configurations that must hold: (cfg, timeout, tier: "both" | "quick" | "thorough"); longest first
-MC_HOLD = [("MC_c3big.cfg", 3000, "thorough"), ("MC_c3.cfg", 1800, "thorough"), ("MC_live.cfg", 1800, "thorough"),
+MC_HOLD = [("MC_c3big.cfg", 3000, "thorough"), ("MC_c2big.cfg", 3000, "thorough"), ("MC_p3.cfg", 3000, "thorough"),
+           ("MC_fixlen.cfg", 1800, "thorough"), ("MC_fixreq.cfg", 1800, "thorough"), ("MC_fixdis.cfg", 1800, "thorough"),
+           ("MC_c3.cfg", 1800, "thorough"), ("MC_live.cfg", 1800, "thorough"), ("MC_liveblk.cfg", 1800, "thorough"),
            ("MC_c2.cfg", 900, "both"), ("MC_req.cfg", 900, "both"), ("MC_c3q.cfg", 900, "quick"),
-           ("MC_blk.cfg", 900, "both"), ("MC_dis.cfg", 900, "both"), ("MC_h0.cfg", 900, "both"), ("MC_abs.cfg", 300, "both")]
+           ("MC_blk.cfg", 900, "both"), ("MC_dis.cfg", 900, "both"), ("MC_h0.cfg", 900, "both"),
+           ("MC_live3.cfg", 900, "both"), ("MC_abs.cfg", 300, "both")]
 COVERAGE_CFGS = ("MC_c2.cfg", "MC_blk.cfg", "MC_dis.cfg", "MC_req.cfg")
 OPTIONAL_ACTIONS = ("External", "Discard", "ReqDecide", "ReqDeliver", "BWaitRead", "BWaitLocked", "PutRead")
 CONFIG_DOC = {
@@ -47,6 +50,13 @@ CONFIG_DOC = {
     "MC_blk.cfg": "Cap=2 MaxIdx=5 MaxPuts=5 Blocking mode",
     "MC_dis.cfg": "Cap=2 MaxIdx=4 MaxPuts=4 with Discard",
     "MC_req.cfg": "Cap=2 MaxIdx=5 PeerH=5 MaxPuts=6, offers chosen by the request rule (every property except ReqNotStarved)",
+    "MC_fixlen.cfg": "repair proposed for the len drift (QuirkLenDrift=FALSE): MC_c2 constants, LenExact added",
+    "MC_fixreq.cfg": "repaired model under the request rule: MC_req constants, LenExact and ReqNotStarved added",
+    "MC_fixdis.cfg": "repaired model (QuirkNoDiscardRecheck=FALSE), Blocking + Discard, Cap=2 MaxIdx=4 MaxPuts=4: NoPanic",
+    "MC_c2big.cfg": "Cap=2 H0=0 MaxIdx=5 MaxPuts=8, 2 producers, NonBlocking, Put-only",
+    "MC_p3.cfg": "Cap=2 H0=0 MaxIdx=4 MaxPuts=5, 3 producers, NonBlocking, Put-only",
+    "MC_live3.cfg": "Cap=3 MaxIdx=4 MaxPuts=4, weak fairness of the runner and of calls in flight: <>[] converged",
+    "MC_liveblk.cfg": "Blocking mode, Cap=2 MaxIdx=4 MaxPuts=4, weak fairness: <>[] converged",
     "MC_live.cfg": "Cap=2 MaxIdx=4 MaxPuts=5, weak fairness of the runner and of calls in flight: <>[] converged",
 }
 # named deviations that TLC must catch (model non-vacuity)
@@ -95,15 +105,18 @@ def tlc_stage(ctx):
     ctx.spec_scratch(SUB)
     jobs = []
     mcw = 4 if q else 8
+    dev_fast = bool(os.environ.get("C20_DEV_FAST"))  # development only: skip the exhaustive runs (mutation experiments)
+    if dev_fast:
+        ctx.extra["dev_fast_no_exhaustive_runs"] = True
     for cfg, to, tier in MC_HOLD:
-        if tier == "thorough" and q or tier == "quick" and not q:
+        if tier == "thorough" and q or tier == "quick" and not q or dev_fast:
             continue
         extra = ["-coverage", "1"] if (not q and cfg in COVERAGE_CFGS) else []
         mod = "MCBlockQueueAbs.tla" if cfg == "MC_abs.cfg" else PC
         jobs.append((cfg, (lambda c=cfg, t=to, e=extra, m=mod: _mc(ctx, m, c, t, 2 if c == "MC_abs.cfg" else mcw, e))))
     for cfg in MC_BUGS:
         jobs.append((cfg, (lambda c=cfg: _mc(ctx, PC, c, 600, 2))))
-    num = 60 if q else 1500
+    num = 120 if q else 2500
     for k, cfg in enumerate(SIMS):
         n = num if cfg not in ("Sim_blk.cfg",) else max(10, num // 6)
         jobs.append((cfg, (lambda c=cfg, n=n, k=k: _mc(ctx, SIM, c, 300 if q else 1500, 1,
@@ -156,7 +169,7 @@ def tlc_stage(ctx):
                 seen.add(k)
                 uniq.append(h)
         rnd.shuffle(uniq)
-        cap = (30 if cfg == "Sim_blk.cfg" else 250) if q else (300 if cfg == "Sim_blk.cfg" else 6000)
+        cap = (30 if cfg == "Sim_blk.cfg" else 400) if q else (300 if cfg == "Sim_blk.cfg" else 3000)
         uniq = uniq[:cap]
         vlib.log("SIM %s: %d behaviours (%d kept), %.1fs" % (cfg, len(hs), len(uniq), r["wall_s"]))
         for n, h in enumerate(uniq):
@@ -174,7 +187,7 @@ def tlc_stage(ctx):
             raise vlib.Inconclusive("vacuity guard: the model never reaches situation '%s'" % kind)
         hs.sort(key=len)
         # the shortest ones first, then a seeded sample of the rest
-        nkeep = (20 if kind != "panic" else 6) if q else 400
+        nkeep = (30 if kind != "panic" else 6) if q else 500
         keep = hs[:6] + (rnd.sample(hs[6:], min(len(hs) - 6, nkeep)) if len(hs) > 6 else [])
         vlib.log("WIT %s: %d witnesses (%d kept), %d states, %.1fs" % (kind, len(hs), len(keep), r.get("states", 0), r["wall_s"]))
         for n, h in enumerate(keep):
@@ -196,6 +209,33 @@ def split_scenarios(events):
     for k, s in enumerate(starts):
         bounds[s] = starts[k + 1] if k + 1 < len(starts) else len(events)
     return starts, bounds
+
+
+def judge_chunks(ctx, events, chunk=300000):
+    """TLC judges the recorded trace in chunks cut at scenario boundaries (the whole log is held in memory by
+    the trace specification). Line numbers of the failure records are mapped back to the whole trace."""
+    starts, bounds = split_scenarios(events)
+    fails = []
+    lo = 0
+    n = 0
+    while lo < len(events):
+        hi = lo
+        for s in starts:
+            if s < lo:
+                continue
+            if bounds[s] - lo > chunk and hi > lo:
+                break
+            hi = bounds[s]
+        path = os.path.join(ctx.work, "chunk-%d.ndjson" % n)
+        vlib.write_ndjson(path, events[lo:hi])
+        for f in ctx.trace_judge(SUB, "BlockQueueTrace.tla", "Trace_BlockQueue.cfg", path, timeout=3000):
+            f["line"] += lo
+            fails.append(f)
+        os.remove(path)
+        lo = hi
+        n += 1
+    ctx.extra["trace_chunks"] = n
+    return fails
 
 
 def judge(ctx, events, fails):
@@ -313,11 +353,11 @@ def run_queue(ctx):
     os.makedirs(ind)
     json.dump(behaviours, open(os.path.join(ind, "behaviours.json"), "w"))
     res = ctx.go_driver("c20queue", "TestDriver", timeout=1500 if q else 3000,
-                        env={"VERIF_IN": ind, "VERIF_RANDOM": 1500 if q else 40000, "VERIF_WORKERS": 6 if q else 10})
+                        env={"VERIF_IN": ind, "VERIF_RANDOM": 4000 if q else 40000, "VERIF_WORKERS": 2})
     ctx.absorb(res)
     trace = os.path.join(res["_out"], "trace.ndjson")
     events = vlib.read_ndjson(trace)
-    fails = ctx.trace_judge(SUB, "BlockQueueTrace.tla", "Trace_BlockQueue.cfg", trace, timeout=3000)
+    fails = judge_chunks(ctx, events)
     ctx.traces_validated += res.get("traces", 0)
     ctx.extra["trace_events"] = len(events)
     bad = judge(ctx, events, fails)
